@@ -163,7 +163,7 @@ def _draw_object(ctx, idx):
          'via': r.choice(['memory', 'memory', 'memory', 'file', 'lazy']),
          'density': r.choice([0.15, 0.3, 0.5]), 'overlap': segtype != 'LABELMAP' and r.random() < 0.5,
          'frac_binary': r.random() < 0.4, 'empty_planes': r.random() < 0.5, 'order': None}
-    if segtype == 'FRACTIONAL' and d['mfv'] >= 100 and r.random() < 0.15:
+    if segtype == 'FRACTIONAL' and d['mfv'] >= 100 and r.random() < 0.35:
         # a malformed object (not constructible): MaximumFractionalValue lowered after construction, so stored values exceed
         # it; the oracle is silent on it, model and implementation must still agree (refusals of the frame transform's
         # output range check, of the `max() > MaximumFractionalValue` guard, of the binarity test)
